@@ -8,7 +8,10 @@ NOTES = json.loads((HERE / "selftest" / "seeded_notes.json").read_text())
 rows = []
 for f in sorted(glob.glob(str(HERE / "seeded" / "*" / "meta.json"))):
     m = json.load(open(f))
-    rows.append((m["name"], m["property"], m["needs_to_manifest"], ",".join(m.get("caught_by", [m["property"]]))))
+    by = ",".join(m.get("caught_by", [m["property"]]))
+    if m.get("retired"):
+        by = "RETIRED (was caught by %s): %s" % (by, m["retired"][:400])
+    rows.append((m["name"], m["property"], m["needs_to_manifest"], by))
 out = ["<!-- SEEDED-TABLE-BEGIN -->", "| seeded change | property | needs to manifest | caught by (quick tier) |", "|---|---|---|---|"]
 for n, p, needs, by in rows:
     out.append("| %s | %s | %s | %s%s |" % (n, p, needs.replace("|", "/")[:260], by, (" - " + NOTES[n]) if n in NOTES else ""))
@@ -17,7 +20,8 @@ out += ["", "%d seeded changes, eight per property, from eight rounds of indepen
         % len(rows), "and asked for a different mechanism). %d of them were missed - or caught only for an incidental reason - by the version of the check that" % len(missed),
         "existed when they arrived; in every case the oracle was adequate and the *workload* did not reach the triggering input class, so the",
         "generator was widened (never the oracle loosened), the unchanged tree was re-swept over several seeds, and the change is now caught",
-        "within the quick tier for the reason its property names.", "<!-- SEEDED-TABLE-END -->"]
+        "within the quick tier for the reason its property names. A change marked RETIRED stopped breaking its property when a genuine defect of the",
+        "repository was repaired (the repair closed the path its trigger needs); it stays on file with its history and is skipped by run_seeded.py.", "<!-- SEEDED-TABLE-END -->"]
 d = (HERE / "DESIGN.md").read_text()
 block = "\n".join(out)
 if "<!-- SEEDED-TABLE-BEGIN -->" in d:
